@@ -166,6 +166,11 @@ def eval_num(t: Term, env: Dict[Term, Any]):
     if k == "un" and t[1] in ("-", "+"):
         v = eval_num(t[2], env)
         return -v if t[1] == "-" else v
+    if k == "cmp" and t[1] in ("<", "<=", ">", ">=", "==", "!="):
+        a, b = eval_num(t[2], env), eval_num(t[3], env)
+        return {"<": a < b, "<=": a <= b, ">": a > b, ">=": a >= b, "==": a == b, "!=": a != b}[t[1]]
+    if k == "phi":
+        return eval_num(t[2], env) if eval_num(t[1], env) else eval_num(t[3], env)
     if k == "call" and isinstance(t[1], str):
         f = t[1]
         args = [eval_num(a, env) for a in t[2]]
